@@ -16,4 +16,7 @@ func init() {
 	setProp("C07", "DESIGN.md §4 C07",
 		"Decides: Point.coords is never read for a possibly-empty point; sub-writer output is always paired with a bounding-box merge; optional header bytes are emitted only where their metadata bit was set (never after an 'is empty' header), every metadata byte carries the ext-precision bit under hasExt; ID lists are emitted only for kinds the reader accepts and only under count == len(list); every geometry the parser returns is typed by the header's coordinates type.",
 		"numeric rounding to the requested grid, the varint arithmetic, and the value-level round trip.")
+	setProp("C17", "DESIGN.md §4 C17",
+		"Decides: snapToGridFloat64 can only return its input, a constant, Round(input) or a value proven neither Inf (both signs) nor NaN; no division by the distance of two control points without a zero guard.",
+		"the geometric contracts of Densify/Simplify (gap bound, subsequence, tolerance), arc-length fractions, idempotence and oddness of SnapToGrid.")
 }
